@@ -165,6 +165,7 @@ pub fn c08(args: Args) {
     };
     let hooks_late = Hooks { after_op: &after, at_end: &end_late, nontrivial: &nt, dyn_check: false, quiesce: true, verify_sig: Some("c08/server-verify") };
     run_histories(&mut run, &args, 2008, args.tier.pick(90, 3000), &prof_late, &hooks_late);
+    c08_bounded(&mut run, &args);
     let lj = run.acc.get("late_joiner_refreshed") > 0;
     run.require(lj, "no late joiner was ever refreshed");
     for k in ["create", "rename", "set_desc", "add_member", "delete", "repl"] {
@@ -174,4 +175,125 @@ pub fn c08(args: Args) {
     let c = run.acc.get("histories_with_conflict_entries") > 0;
     run.require(c, "no history produced a conflict entry");
     run.finish();
+}
+
+
+/// Bounded exhaustive part: three real replicas A, B, C that all hold one person (with a
+/// description) and one group; EVERY sequence up to a bounded length over single-valued writes and
+/// purges on A and B, adding / removing the group's only member, refresh of C from A or B, and
+/// pairwise incremental replications; then a full mesh to quiescence and the same comparison as the
+/// random part. Covers the orders in which a write, a later purge of the same attribute and the
+/// (re)join of a replica can interleave.
+fn c08_bounded(run: &mut Run, args: &Args) {
+    use kvcore::rng::mix;
+    use kvcore::Rng;
+    const NAMES: [&str; 12] = ["set@A", "purge@B", "add-member@A", "rem-member@B", "refresh B->C", "refresh A->C", "repl A->C", "repl A->B", "repl B->C", "set@B", "purge@A", "repl B->A"];
+    let thorough = args.tier.pick(false, true);
+    let mut seqs: Vec<Vec<usize>> = Vec::new();
+    // need: 0 nothing, 1 a refresh, 2 a refresh + a write on A + a write on B + an incremental replication
+    let all = |syms: usize, len: usize, need: u8, seqs: &mut Vec<Vec<usize>>| {
+        let total = syms.pow(len as u32);
+        for mut x in 0..total {
+            let mut v = Vec::with_capacity(len);
+            for _ in 0..len {
+                v.push(x % syms);
+                x /= syms;
+            }
+            let refresh = v.iter().any(|s| *s == 4 || *s == 5);
+            let wa = v.iter().any(|s| matches!(*s, 0 | 2 | 10));
+            let wb = v.iter().any(|s| matches!(*s, 1 | 3 | 9));
+            let rp = v.iter().any(|s| matches!(*s, 6 | 7 | 8 | 11));
+            if need == 0 || (need == 1 && refresh) || (need == 2 && refresh && wa && wb && rp) {
+                seqs.push(v);
+            }
+        }
+    };
+    if thorough {
+        for len in 1..=3 {
+            all(12, len, 0, &mut seqs);
+        }
+        all(12, 4, 1, &mut seqs);
+    } else {
+        for len in 1..=2 {
+            all(9, len, 0, &mut seqs);
+        }
+        all(9, 3, 1, &mut seqs);
+        all(9, 4, 2, &mut seqs);
+    }
+    let seqs = &seqs;
+    let seed = args.seed;
+    kvcore::run::install_panic_hook();
+    run.parallel(args.workers, |wk, n| {
+        let mut acc = Acc::new();
+        let rt = srv::rt();
+        let (e, g) = (Obj(Kind::Person, 0), Obj(Kind::Group, 0));
+        let mut i = wk;
+        while i < seqs.len() {
+            let seq = &seqs[i];
+            let res = std::panic::catch_unwind(std::panic::AssertUnwindSafe(|| {
+                rt.block_on(async {
+                    let mut rng = Rng::new(mix(seed, 808, i as u64));
+                    let cfg = WorldCfg { replicas: 3, level: kanidmd_lib::constants::DOMAIN_TGT_LEVEL, unique_names: true, skew: false, file_backed: None };
+                    let mut w = World::new(&cfg, &mut rng).await;
+                    w.apply(Op::Create { r: 0, obj: e, name: 0, bad_spn: false }).await;
+                    w.apply(Op::Create { r: 0, obj: g, name: 1, bad_spn: false }).await;
+                    w.apply(Op::SetDesc { r: 0, obj: e, val: Some(0) }).await;
+                    w.apply(Op::Repl { from: 0, to: 1 }).await;
+                    w.apply(Op::Repl { from: 0, to: 2 }).await;
+                    let mut n_desc = 0u8;
+                    for s in seq {
+                        let op = match s {
+                            0 => { n_desc += 1; Op::SetDesc { r: 0, obj: e, val: Some(1 + n_desc % 3) } }
+                            1 => Op::SetDesc { r: 1, obj: e, val: None },
+                            2 => Op::AddMember { r: 0, grp: g, member: e.uuid() },
+                            3 => Op::RemMember { r: 1, grp: g, member: e.uuid() },
+                            4 => Op::Refresh { from: 1, to: 2 },
+                            5 => Op::Refresh { from: 0, to: 2 },
+                            6 => Op::Repl { from: 0, to: 2 },
+                            7 => Op::Repl { from: 0, to: 1 },
+                            8 => Op::Repl { from: 1, to: 2 },
+                            9 => { n_desc += 1; Op::SetDesc { r: 1, obj: e, val: Some(1 + n_desc % 3) } }
+                            10 => Op::SetDesc { r: 0, obj: e, val: None },
+                            _ => Op::Repl { from: 1, to: 0 },
+                        };
+                        let rec = w.apply(op).await;
+                        acc.count(&format!("bounded.op.{}.{}", rec.op.kind(), if rec.ok { if rec.changed { "ok" } else { "noop" } } else { "err" }));
+                    }
+                    let q = w.quiesce(8).await;
+                    acc.eval();
+                    let writes = seq.iter().filter(|s| matches!(**s, 0 | 1 | 2 | 3 | 9 | 10)).count();
+                    if writes >= 2 && seq.iter().any(|s| *s == 4 || *s == 5) {
+                        acc.nontrivial_distinct();
+                    }
+                    if matches!(q, Quiesce::Reached(_)) {
+                        acc.count("bounded.judged_at_quiescence");
+                        let mut sigs = std::collections::BTreeSet::new();
+                        for (sig, why) in compare(&w) {
+                            let sig = sig.replacen("c08/", "c08/bounded/", 1);
+                            if sigs.insert(sig.clone()) {
+                                let named: Vec<&str> = seq.iter().map(|s| NAMES[*s]).collect();
+                                acc.violation(&format!("{sig}/replicated"), serde_json::json!({"bounded_sequence": named, "setup": "person e (description d0) and empty group g created on A, replicated to B and C", "why": why, "history_tail": w.history_json(30)}));
+                            }
+                        }
+                    } else {
+                        acc.count(&format!("bounded.not_quiesced.{}", match q { Quiesce::Unwilling => "unwilling", Quiesce::ApplyError(_) => "apply_error", _ => "other" }));
+                    }
+                })
+            }));
+            if res.is_err() {
+                let (loc, msg) = kvcore::run::take_last_panic().unwrap_or_default();
+                if kvcore::run::panic_in_kanidm(&loc) || loc.contains("/.cargo/registry/") {
+                    acc.count("bounded.cross.panic_outside_harness");
+                    acc.observe("kanidm_debug_assertions_fired", &format!("{loc}: {msg}"));
+                } else {
+                    acc.inconclusive(&format!("harness panic at {loc}: {msg}"));
+                }
+            }
+            i += n;
+        }
+        acc
+    });
+    run.extra("bounded_sequences", serde_json::json!({"executed": seqs.len(), "alphabet": NAMES[..if thorough { 12 } else { 9 }], "exhaustive_to_length": if thorough { 3 } else { 2 }, "plus_all_with_a_refresh_of_length": if thorough { 4 } else { 3 }, "plus_quick_length_4_with": "a refresh, a write on A, a write on B and an incremental replication"}));
+    let j = run.acc.get("bounded.judged_at_quiescence") > 0;
+    run.require(j, "no bounded sequence reached quiescence");
 }
